@@ -13,6 +13,7 @@ R10.1  for each `case` group of Platform::set(Type) the constant assigned to eac
 R10.2  every `return true` of Platform::set(Type) is reached only after all size members, char_bit, defaultSign and
        `type` were assigned and calculateBitMembers() was called; loadFromXmlDocument calls calculateBitMembers()
        before every return that can be true.
+R10.4  Platform::getLimitsDefines: CHAR_MIN / CHAR_MAX agree with SCHAR_* / UCHAR_MAX according to the plain-char signedness.
 R10.3  data/reader agreement: the element names the XML loader dispatches on are exactly the size members of
        Platform, and every shipped platforms/*.xml defines each of them once, plus char_bit and default-sign (the
        loader is data driven: a missing element silently keeps the previous value).
@@ -144,6 +145,8 @@ def run(ctx):
                 ctx.ob('R10.1', 'size:%s:sizeof_bool' % lab, str(sb.get('v')) == '1', '%s.sizeof_bool = %s (sizeof(bool) is 1 for all four targets)' % (lab, sb.get('v')), '%s:%s' % (ps['file'], sb.get('l')))
     ctx.floor('R10.1 table entries compared with the compiler', ncmp, 50)
 
+    r10_4(ctx)
+
     # loader
     ld = F.one('Platform::loadFromXmlDocument')
     lb = F.body(ld)['body']
@@ -197,3 +200,73 @@ def run(ctx):
         ctx.ob('R10.3', 'file:%s' % rel, ok, ('%s defines every member once' % rel) if ok else
                ('%s: missing %s, duplicated %s, not read by the loader %s (a missing element silently keeps the value of the previously selected platform)'
                 % (rel, missing, dup, unknown)), rel)
+
+
+def r10_4(ctx):
+    """R10.4  limits defines: Platform::getLimitsDefines builds NAME=VALUE pairs from the bit widths.  Sibling agreement required by the
+    language: CHAR_MIN is 0 when plain char is unsigned and equals SCHAR_MIN otherwise; CHAR_MAX equals UCHAR_MAX when plain char is
+    unsigned and SCHAR_MAX otherwise (compared as expressions over the same members)."""
+    from .common.jsonguard import expr_sig
+    F = ctx.facts
+    ctx.rule('R10.4', 'CHAR_MIN / CHAR_MAX defines follow the platform\'s plain-char signedness')
+    cands = [f for f in F.find('Platform::getLimitsDefines') if f.get('params') and f['params'][0]['t'] == 'bool']
+    if len(cands) != 1:
+        raise AnalysisBroken('Platform::getLimitsDefines(bool): %d candidates' % len(cands))
+    g = cands[0]
+    body = F.body(g)['body']
+    cur = None
+    vals = {}       # name -> {'always': sig} or {'u': sig, 's': sig}
+
+    def rhs_of(st):
+        s0 = strip(st)
+        if s0 is not None and s0.get('k') == 'CXXOperatorCallExpr' and s0.get('op') == '+=':
+            return s0['c'][2]
+        return None
+
+    def name_in(expr):
+        for y in walk(expr):
+            if y.get('k') == 'StringLiteral':
+                m = re.search(r'([A-Z_]+)=$', y.get('v') or '')
+                if m:
+                    return m.group(1)
+        return None
+
+    def sig(expr):
+        e = strip_all(expr)
+        # std::to_string(X) -> X
+        if e.get('k') == 'CallExpr' and e.get('fn') == 'std::to_string':
+            e = strip_all(call_args(e)[0])
+        return expr_sig(e)
+
+    for st in body.get('c', ()):
+        r = rhs_of(st)
+        if r is not None:
+            nm = name_in(r)
+            if nm:
+                cur = nm
+                continue
+            if cur and cur not in vals:
+                vals[cur] = {'always': sig(r)}
+            continue
+        if st.get('k') == 'IfStmt' and cur and cur not in vals:
+            c = strip(st.get('cond'))
+            lit = next((y for y in walk(c) if y.get('k') == 'CharacterLiteral'), None) if c else None
+            is_u = c is not None and c.get('k') == 'BinaryOperator' and c.get('op') == '==' and any(y.get('n') == 'Platform::defaultSign' for y in walk(c)) and \
+                lit is not None and lit.get('v') in (117, 'u')
+            if is_u and st.get('then') is not None and st.get('else') is not None:
+                t, e = rhs_of(st['then']) if st['then'].get('k') != 'CompoundStmt' else rhs_of(st['then']['c'][0]), \
+                    rhs_of(st['else']) if st['else'].get('k') != 'CompoundStmt' else rhs_of(st['else']['c'][0])
+                if t is not None and e is not None:
+                    vals[cur] = {'u': sig(t), 's': sig(e)}
+    need = ('SCHAR_MIN', 'SCHAR_MAX', 'UCHAR_MAX', 'CHAR_MIN', 'CHAR_MAX')
+    if any(n not in vals for n in need):
+        raise AnalysisBroken('getLimitsDefines: could not extract %s' % [n for n in need if n not in vals])
+    where = '%s:%d' % (g['file'], g['line'])
+    ok = vals['CHAR_MIN'].get('u') == 'IntegerLiteral(0)[]' and vals['CHAR_MIN'].get('s') == vals['SCHAR_MIN']['always']
+    ctx.ob('R10.4', 'limits:CHAR_MIN', bool(ok), 'CHAR_MIN is 0 for unsigned plain char and SCHAR_MIN otherwise' if ok else
+           'CHAR_MIN is defined as %s when plain char is unsigned and as %s when it is signed; the language requires 0 and SCHAR_MIN (%s): the two branches are swapped, so '
+           '`#if CHAR_MIN < 0` and comparisons with CHAR_MIN are evaluated for the wrong signedness' % (vals['CHAR_MIN'].get('u'), vals['CHAR_MIN'].get('s'), vals['SCHAR_MIN']['always']), where)
+    ok = 'u' in vals['CHAR_MAX'] and vals['CHAR_MAX']['u'] == vals['UCHAR_MAX']['always'] and vals['CHAR_MAX']['s'] == vals['SCHAR_MAX']['always']
+    ctx.ob('R10.4', 'limits:CHAR_MAX', ok, 'CHAR_MAX is UCHAR_MAX for unsigned plain char and SCHAR_MAX otherwise' if ok else
+           'CHAR_MAX is defined as %s / %s (unsigned / signed plain char); the language requires UCHAR_MAX (%s) / SCHAR_MAX (%s)'
+           % (vals['CHAR_MAX'].get('u'), vals['CHAR_MAX'].get('s'), vals['UCHAR_MAX']['always'], vals['SCHAR_MAX']['always']), where)
